@@ -533,3 +533,65 @@ func MutateSpec(r *rand.Rand, in PipeSpec) (PipeSpec, string) {
 	}
 	return s, desc
 }
+
+var jsonStrings = []string{"", "plain", "with space", "quote\"q", "back\\slash", "line\nbreak\ttab", "\u0001ctrl\u001f", "äöü€", "𝄞 non-BMP 😀", "\\u0041", "</script>&<>", "null", "1e400", " lead/trail "}
+
+// RandJSON generates an arbitrary JSON value as the HTTP API would deliver it (float64 numbers, strings, bools, nil, arrays, objects)
+func RandJSON(r *rand.Rand, depth int) interface{} {
+	k := r.Intn(10)
+	if depth <= 0 && k >= 8 {
+		k = r.Intn(8)
+	}
+	switch k {
+	case 0:
+		return nil
+	case 1:
+		return r.Intn(2) == 0
+	case 2: // floats with 1-17 significant digits over many magnitudes
+		exps := []float64{1e-9, 1e-7, 1e-3, 1, 1e3, 1e9, 1e15, 1e21}
+		f := r.Float64() * exps[r.Intn(len(exps))]
+		if r.Intn(2) == 0 {
+			f = -f
+		}
+		if r.Intn(3) == 0 {
+			// few significant digits
+			digits := []float64{10, 1000, 1e6}[r.Intn(3)]
+			f = float64(int64(f*digits)) / digits
+		}
+		return f
+	case 3: // integers as float64 up to 2^53
+		vals := []float64{0, 1, -1, 42, 65535, 4294967296, 9007199254740992, -9007199254740992, 1e21}
+		return vals[r.Intn(len(vals))]
+	case 4:
+		return []float64{0.1, 0.2 + 0.1, 1e-9, 0.1234567891, -1.234e-7, 5e-324, 1.7976931348623157e308, 123456.789012345}[r.Intn(8)]
+	case 5, 6, 7:
+		return jsonStrings[r.Intn(len(jsonStrings))]
+	case 8:
+		n := r.Intn(4)
+		a := make([]interface{}, n)
+		for i := range a {
+			a[i] = RandJSON(r, depth-1)
+		}
+		return a
+	default:
+		n := r.Intn(4)
+		m := make(map[string]interface{}, n)
+		for i := 0; i < n; i++ {
+			m[jsonStrings[r.Intn(len(jsonStrings))]+fmt.Sprint(i)] = RandJSON(r, depth-1)
+		}
+		return m
+	}
+}
+
+// RandVars generates job variables
+func RandVars(r *rand.Rand) map[string]interface{} {
+	if r.Intn(10) == 0 {
+		return nil
+	}
+	n := r.Intn(5)
+	m := make(map[string]interface{}, n)
+	for i := 0; i < n; i++ {
+		m[fmt.Sprintf("v%d%s", i, jsonStrings[r.Intn(len(jsonStrings))])] = RandJSON(r, 3)
+	}
+	return m
+}
